@@ -4,7 +4,8 @@ package main
 // statement into Gallina on every check:
 //
 //	keyper/eonpkhandler.go          queryAndHandleNewEonPubKeys (the query, the loop, every guard,
-//	                                every return), broadcastEonPublicKey
+//	                                every return), broadcastEonPublicKey; loop (its shape only:
+//	                                ticker, poll, error branch without continue, wait)
 //	keyper/database/extend.go       GetKeyperIndex (a range loop with an early return)
 //	medley/medley.go                Int64ToUint64Safe, Int32ToUint64Safe
 //	p2pmsg/eonpublickey.go          NewSignedEonPublicKey (which parameter fills which field)
@@ -741,5 +742,132 @@ func genEonPKLoop(repo string) (string, error) {
 	}
 	sb.WriteString("(* the body of the loop of queryAndHandleNewEonPubKeys *)\n" + t2.bodies[0] + "\n")
 	fmt.Fprintf(&sb, "(* eonPubKeyHandler.queryAndHandleNewEonPubKeys; query = what GetAndDeleteEonPublicKeys returned\n   (None: an error), answers = what the mechanisms will answer; result: the calls made and what\n   the function returned *)\nDefinition gen_query_and_handle (h : hcfg) (query : option (list joined)) (answers : list bool) : list (call * bool) * gen_ret :=\n  let st : gen_state := ([], answers) in\n  let r :=\n  %s in\n  (fst (fst r), match snd r with Ret x => x | _ => RNil end).\n", body2)
+	lp, err := epkLoopShape(fh)
+	if err != nil {
+		return "", err
+	}
+	sb.WriteString(lp)
 	return sb.String(), nil
+}
+
+// epkLoopShape reads eonPubKeyHandler.loop.  Understood is exactly the ticker form: a
+// time.NewTicker(eonPubkeyTickerTime) created before an endless for loop whose body polls once
+// (err := pkh.<method>(ctx)), handles the error in an `if err != nil { ... }` block that leaves the
+// iteration only by `return` under `pkh.stopOnErrors` (no continue / break / goto), and then waits
+// in a select for ctx.Done() (return) or the ticker's channel.  A Ticker re-arms itself, so on
+// every path that does not return the next poll happens one interval later.  Anything else
+// (a Timer that has to be Reset, a continue that skips the wait, ...) is refused.
+func epkLoopShape(f *ast.File) (string, error) {
+	bad := func(s string) (string, error) { return "", fmt.Errorf("loop: unexpected shape: %s", s) }
+	fd := findFunc(f, "loop")
+	if fd == nil || fd.Recv == nil || len(fd.Recv.List) != 1 || len(fd.Recv.List[0].Names) != 1 {
+		return bad("not found")
+	}
+	recv := fd.Recv.List[0].Names[0].Name
+	var ticker, polled string
+	var forStmt *ast.ForStmt
+	for _, st := range fd.Body.List {
+		switch x := st.(type) {
+		case *ast.AssignStmt:
+			if len(x.Lhs) == 1 && len(x.Rhs) == 1 && epkText(x.Rhs[0]) == "time.NewTicker(eonPubkeyTickerTime)" && x.Tok == token.DEFINE {
+				ticker = epkText(x.Lhs[0])
+				continue
+			}
+			return bad("statement before the loop: " + epkText(x.Rhs[0]))
+		case *ast.DeferStmt:
+			if epkText(x.Call) != ticker+".Stop()" {
+				return bad("defer " + epkText(x.Call))
+			}
+		case *ast.ForStmt:
+			if forStmt != nil || x.Init != nil || x.Cond != nil || x.Post != nil {
+				return bad("for statement")
+			}
+			forStmt = x
+		default:
+			return bad(fmt.Sprintf("statement %T", st))
+		}
+	}
+	if ticker == "" || forStmt == nil || len(forStmt.Body.List) != 3 {
+		return bad("no ticker, no loop, or a loop body that is not poll / error handling / wait")
+	}
+	as, ok := forStmt.Body.List[0].(*ast.AssignStmt)
+	if !ok || len(as.Lhs) != 1 || len(as.Rhs) != 1 || epkText(as.Lhs[0]) != "err" {
+		return bad("first statement of the body is not `err := <poll>`")
+	}
+	if call, ok := as.Rhs[0].(*ast.CallExpr); ok && len(call.Args) == 1 && epkText(call.Args[0]) == "ctx" {
+		polled = epkText(call.Fun)
+	}
+	if polled != recv+".queryAndHandleNewEonPubKeys" {
+		return bad("the loop does not call queryAndHandleNewEonPubKeys(ctx)")
+	}
+	is, ok := forStmt.Body.List[1].(*ast.IfStmt)
+	if !ok || is.Init != nil || is.Else != nil || epkText(is.Cond) != "err != nil" {
+		return bad("second statement of the body is not `if err != nil { ... }`")
+	}
+	leaves := ""
+	ast.Inspect(is.Body, func(n ast.Node) bool {
+		switch x := n.(type) {
+		case *ast.BranchStmt:
+			leaves = x.Tok.String()
+		case *ast.FuncLit:
+			return false
+		}
+		return true
+	})
+	if leaves != "" {
+		return bad("the error branch leaves the iteration by " + leaves + " (the wait for the next tick is skipped)")
+	}
+	for _, st := range is.Body.List {
+		switch x := st.(type) {
+		case *ast.ReturnStmt:
+			return bad("the error branch returns unconditionally")
+		case *ast.IfStmt:
+			if epkText(x.Cond) != recv+".stopOnErrors" || x.Else != nil {
+				return bad("conditional in the error branch: " + epkText(x.Cond))
+			}
+		case *ast.ExprStmt: // logging
+		default:
+			return bad(fmt.Sprintf("statement %T in the error branch", st))
+		}
+	}
+	sel, ok := forStmt.Body.List[2].(*ast.SelectStmt)
+	if !ok || len(sel.Body.List) != 2 {
+		return bad("third statement of the body is not a select with two cases")
+	}
+	sawDone, sawTick := false, false
+	for _, cc := range sel.Body.List {
+		c := cc.(*ast.CommClause)
+		es, ok := c.Comm.(*ast.ExprStmt)
+		if !ok {
+			return bad("select case")
+		}
+		switch epkText(es.X) {
+		case "<-ctx.Done()":
+			if n := len(c.Body); n == 0 {
+				return bad("ctx.Done() case does not return")
+			} else if _, ok := c.Body[n-1].(*ast.ReturnStmt); !ok {
+				return bad("ctx.Done() case does not return")
+			}
+			sawDone = true
+		case "<-" + ticker + ".C":
+			if len(c.Body) != 0 {
+				return bad("ticker case has a body")
+			}
+			sawTick = true
+		default:
+			return bad("select case " + epkText(es.X))
+		}
+	}
+	if !sawDone || !sawTick {
+		return bad("select does not wait for both ctx.Done() and the ticker")
+	}
+	return `
+(* eonPubKeyHandler.loop, read structurally (not translated into a function): a time.Ticker with
+   the polling interval, an endless loop of poll / error handling / wait for ctx.Done() or the
+   ticker; the error branch leaves the iteration only by returning when stopOnErrors is set.
+   A polling run that returns an error is therefore followed by the next poll one interval
+   later, like a successful one: the loop is a sequence of polling ticks. *)
+Definition gen_loop_polls_again_after (run_failed : bool) (stop_on_errors : bool) : bool :=
+  if run_failed then negb stop_on_errors else true.
+`, nil
 }
